@@ -6,6 +6,7 @@ mod known;
 mod props;
 mod runner;
 mod scen_a;
+mod scen_d;
 mod variants;
 
 fn usage() -> i32 {
